@@ -442,6 +442,11 @@ impl Tracer {
                                 "the interrupt caught but the breakpoint was not found"
                             );
                             let Some(&brkpt) = mb_hit_brkpt else {
+                                // a trap of a breakpoint that has been removed in the meantime,
+                                // the tracee is stopped and must be resumed later
+                                self.tracee_ctl
+                                    .tracee_ensure_mut(pid)
+                                    .set_stop(StopType::Interrupt);
                                 return Ok(None);
                             };
 
